@@ -418,21 +418,21 @@ Section Refine.
     consume_from parse true (map absf open) evs = map (record_of parse) (segments open evs).
   Proof.
     induction evs as [|e r IH]; intros open W; cbn [consume_from segments].
-    - rewrite <- map_rev, !map_map. apply map_ext. intros [k s]. unfold record_of. simpl.
+    - unfold flush. rewrite <- map_rev, !map_map. apply map_ext. intros [k s]. unfold record_of. simpl.
       rewrite model_record_spec. reflexivity.
-    - destruct (e_id e) as [i|]; [|apply IH; assumption].
+    - unfold step. destruct (e_id e) as [i|]; [|apply IH; assumption].
       rewrite final_table, get_absf. cbn [fst].
       destruct (get (i, e_route e) open) as [s|] eqn:G; cbn [option_map seg_or_nil].
       + pose proof (get_wf _ _ _ W G) as Hs.
         rewrite <- (model_record_snoc i s e Hs).
-        destruct (is_final (e_status e)).
+        destruct (is_final (e_status e)); cbn [fst snd app].
         * cbn [map]. rewrite del_absf, IH by (apply Forall_del; assumption).
           unfold record_of at 1. cbn [g_key g_hung g_events fst]. rewrite model_record_spec. reflexivity.
         * change (model_record parse i (s ++ [e])) with (model_record parse (fst (i, e_route e)) (s ++ [e])).
           rewrite put_absf. apply IH. apply Forall_put; [|assumption]. intros k' _. simpl. destruct s; discriminate.
       + change ([] ++ [e]) with [e].
         change (upd parse (create i (e_ts e)) e) with (model_record parse i [e]).
-        destruct (is_final (e_status e)).
+        destruct (is_final (e_status e)); cbn [fst snd app].
         * cbn [map]. rewrite del_absf, IH by (apply Forall_del; assumption).
           unfold record_of at 1. cbn [g_key g_hung g_events fst]. rewrite model_record_spec. reflexivity.
         * change (model_record parse i [e]) with (model_record parse (fst (i, e_route e)) [e]).
